@@ -96,6 +96,11 @@ def run_unit(name, thorough=False, use_cache=True):
     except Exception as e:   # a bug in vx must never look like a violation
         return {"unit": name, "status": "undecided", "reason": "vx internal error: %r" % (e,), "failures": [], "clauses": [], "info": None}
     reg = {u["name"]: u for u in registry()["units"]}.get(name, {})
+    from . import bridges
+    bridge_notes, bridge_bad = bridges.check(name)
+    if bridge_bad:     # an assumed contract that no longer matches the proved one decides nothing
+        return {"unit": name, "status": "undecided", "reason": "; ".join(bridge_bad), "failures": [], "clauses": [], "info": None}
+    info = dict(info or {}); info["bridges"] = bridge_notes
     rlimit = reg.get("rlimit")
     if thorough and rlimit: rlimit = rlimit * 4
     if thorough and not rlimit: rlimit = 40
